@@ -65,7 +65,10 @@ pub fn build(mut t: Tape, game: u64) -> Built {
         }
         2 => {
             let mut st = Gs3State::generate(&mut t, 0, true);
-            while st.payloads(&mut t, 1)[0].len() > 1380 {
+            // JC2M answers in a single datagram, which the client reads into a 2048-byte buffer: one case in
+            // three goes beyond the MTU (a full server)
+            let cap = if t.draw(CFG, 3) == 0 { 2000 } else { 1380 };
+            while st.payloads(&mut t, 1)[0].len() > cap {
                 if let Some(l) = &mut st.jc2m {
                     if l.pop().is_none() {
                         st.extras.pop();
